@@ -353,15 +353,21 @@ def explore_dataset(col, ds, tier):
         single = [(k, a) for k in range(len(ref_log))
                   for a in menu_for(ref_log[k])]
         runs = [{k: a} for k, a in single]
-        if bound >= 2:
-            # second deviation at a later point of the SAME fault-free
-            # numbering; points created after the first deviation are
-            # discovered on the fly and get a 404 / 500 / connection error
+        # bound 2 (thorough, every third dataset): the second deviation is
+        # placed at each of the next three requests of the run that already
+        # contains the first one (requests issued after a deviation are
+        # discovered on the fly) and is taken from that request's own menu
+        second = ("404", "500", "connection-error", "short-truthful",
+                  "short-declared")
+        do_pairs = bound >= 2 and (sum(map(ord, json.dumps(
+            ds, sort_keys=True))) % 3 == 0)
+        if do_pairs:
             for (k1, a1) in single:
-                for k2 in range(k1 + 1, min(len(ref_log), k1 + 4)):
-                    for a2 in ("404", "500", "connection-error",
-                               "short-truthful"):
-                        runs.append({k1: a1, k2: a2})
+                out1, log1, _ = run_history(url, chunks, srv, {k1: a1})
+                for k2 in range(k1 + 1, min(len(log1), k1 + 4)):
+                    for a2 in menu_for(log1[k2]):
+                        if a2 in second:
+                            runs.append({k1: a1, k2: a2})
         for devs in runs:
             case = dict(base_case, url=url,
                         deviations={str(k): a for k, a in devs.items()})
